@@ -5,11 +5,14 @@ from common import hx
 from hexlib import HexaryTrie, keccak, Boom, BOOMS, boom, WriteFailed, FailingDict
 
 ID = "C04"
-LEAN_IMPORTS = ["PyTrie.Props.C04", "PyTrie.Props.RawLevel", "PyTrie.Props.NonVacuity", "PyTrie.Props.FreeExec"]
+LEAN_IMPORTS = ["PyTrie.Props.C04", "PyTrie.Props.C04History", "PyTrie.Props.RawLevel", "PyTrie.Props.NonVacuity", "PyTrie.Props.FreeExec"]
 THEOREMS = [
     "PyTrie.Props.C04.set_writes_addressed",
     "PyTrie.Props.C04.delete_writes_addressed",
     "PyTrie.Props.C04.set_delete_append_only",
+    "PyTrie.Props.C04.history_complete_for_all_versions",
+    "PyTrie.Props.C04.history_old_roots_readable",
+    "PyTrie.Props.C04.history_preserves_every_binding",
     "PyTrie.Props.C04.failed_op_keeps_roots",
     "PyTrie.Props.C04.batch_commit_append_only",
     "PyTrie.Props.C04.old_root_still_readable",
